@@ -508,3 +508,319 @@ Proof.
 Qed.
 
 End Data.
+
+Arguments sd {D L} _ _.
+Arguments sl {D L} _ _.
+Arguments mkst {D L} _ _.
+
+(* ================================================================================================================== *)
+(* 4. non-vacuity: a concrete instance                                                                                *)
+(* ================================================================================================================== *)
+(* data = one number per node; an access of operation 0 adds one, of operation 1 doubles, of any other operation adds ten;
+   the local state (the operation's outcome) is the list of values it has read *)
+Definition ex_acc (o : opid) (n : nid) (l : list nat) (d : nat) : list nat * nat :=
+  (l ++ [d], match o with 0 => d + 1 | 1 => 2 * d | _ => d + 10 end).
+
+Definition ex_init : state nat (list nat) := mkst (fun _ => 1) (fun _ => []).
+
+Definition ex_view (st : state nat (list nat)) : list nat * list (list nat) :=
+  (map (sd st) [0; 1; 2], map (sl st) [0; 1; 2]).
+
+(* operation 0 walks over nodes 0 and 1 and releases 0 early; operation 1 follows it hand over hand; operation 2 works on
+   node 2 all along.  Lock points: 2 (position 0), 0 (position 4), 1 (position 10). *)
+Definition ex_sched : list event :=
+  [Lk 2 2; Lk 0 0; Ac 0 0; Ac 2 2; Lk 0 1; Ul 0 0; Lk 1 0; Ac 1 0; Ac 0 1; Ul 0 1; Lk 1 1; Ac 2 2; Ac 1 1; Ul 1 0; Ul 1 1; Ul 2 2].
+
+Example ex_sched_ok :
+  legal free ex_sched /\ covered free ex_sched /\ two_phase ex_sched /\
+  lock_order ex_sched = [2; 0; 1] /\ serial ex_sched <> ex_sched /\
+  serial ex_sched =
+    [Lk 2 2; Ac 2 2; Ac 2 2; Ul 2 2] ++ [Lk 0 0; Ac 0 0; Lk 0 1; Ul 0 0; Ac 0 1; Ul 0 1] ++
+    [Lk 1 0; Ac 1 0; Lk 1 1; Ac 1 1; Ul 1 0; Ul 1 1] /\
+  ex_view (exec _ _ ex_acc ex_sched ex_init) = ([4; 4; 21], [[1; 1]; [2; 2]; [1; 11]]) /\
+  ex_view (exec _ _ ex_acc (serial ex_sched) ex_init) = ([4; 4; 21], [[1; 1]; [2; 2]; [1; 11]]).
+Proof. vm_compute. repeat split; auto; discriminate. Qed.
+
+(* dropping two-phase-ness: operation 0 releases node 0 and takes it again; operation 1 slips in between.  The schedule is
+   legal and covered, and its result is that of NO sequential order of the two operations. *)
+Definition ex_not_2pl : list event :=
+  [Lk 0 0; Ac 0 0; Ul 0 0; Lk 1 0; Ac 1 0; Ul 1 0; Lk 0 0; Ac 0 0; Ul 0 0].
+
+Example two_phase_needed :
+  legal free ex_not_2pl /\ covered free ex_not_2pl /\ ~ two_phase ex_not_2pl /\
+  sd (exec _ _ ex_acc ex_not_2pl ex_init) 0 = 5 /\
+  sd (exec _ _ ex_acc (serial ex_not_2pl) ex_init) 0 = 4 /\
+  sd (exec _ _ ex_acc (proj 0 ex_not_2pl ++ proj 1 ex_not_2pl) ex_init) 0 = 6 /\
+  sd (exec _ _ ex_acc (proj 1 ex_not_2pl ++ proj 0 ex_not_2pl) ex_init) 0 = 4.
+Proof. vm_compute. repeat split; auto. intros [H _]. discriminate. Qed.
+
+(* dropping coverage: operation 1 accesses node 0 without its lock, inside operation 0's critical section.  Legal and
+   two-phase; again no sequential order gives the result. *)
+Definition ex_not_covered : list event := [Lk 0 0; Ac 0 0; Ac 1 0; Ac 0 0; Ul 0 0].
+
+Example coverage_needed :
+  legal free ex_not_covered /\ two_phase ex_not_covered /\ ~ covered free ex_not_covered /\
+  sd (exec _ _ ex_acc ex_not_covered ex_init) 0 = 5 /\
+  sd (exec _ _ ex_acc (serial ex_not_covered) ex_init) 0 = 3 /\
+  sd (exec _ _ ex_acc (proj 0 ex_not_covered ++ proj 1 ex_not_covered) ex_init) 0 = 6 /\
+  sd (exec _ _ ex_acc (proj 1 ex_not_covered ++ proj 0 ex_not_covered) ex_init) 0 = 4.
+Proof. vm_compute. repeat split; auto. intros (_ & _ & H & _). discriminate. Qed.
+
+(* dropping exclusiveness: both operations hold the lock of node 0 *)
+Definition ex_not_legal : list event := [Lk 0 0; Ac 0 0; Lk 1 0; Ac 1 0; Ac 0 0; Ul 0 0].
+
+Example legality_needed :
+  ~ legal free ex_not_legal /\ two_phase ex_not_legal /\
+  sd (exec _ _ ex_acc ex_not_legal ex_init) 0 = 5 /\
+  sd (exec _ _ ex_acc (proj 0 ex_not_legal ++ proj 1 ex_not_legal) ex_init) 0 = 6 /\
+  sd (exec _ _ ex_acc (proj 1 ex_not_legal ++ proj 0 ex_not_legal) ex_init) 0 = 4.
+Proof. vm_compute. repeat split; auto. intros (_ & _ & H & _). discriminate. Qed.
+
+(* ================================================================================================================== *)
+(* 5. model L: every accepted run of a lock-disciplined configuration is a legal, two-phase lock schedule             *)
+(* ================================================================================================================== *)
+Definition ev_events (e : ev) : list event :=
+  match e with EAcq n o _ => [Lk o n] | ERel n o _ => [Ul o n] | _ => [] end.
+
+(* the lock schedule of a model-L trace *)
+Definition sched (tr : list ev) : list event := flat_map ev_events tr.
+
+(* what one accepted event of a lock-disciplined configuration does to the locks and to its own operation *)
+Lemma step_spec cfg s e s' :
+  all_disciplined cfg -> Own s -> step cfg s e = Some s' ->
+  match e with
+  | EIssue o => op_of s o = SIdle /\ op_of s' o = SRun [] (prog_of (kind_of cfg o)) None /\
+                forall m, lock_of s' m = lock_of s m
+  | EReq n o r => (exists held p, op_of s o = SRun held (AReq n :: p) None /\ op_of s' o = SRun held p (Some r)) /\
+                forall m, lock_of s' m = lock_of s m
+  | EAcq n o r => (exists held p, op_of s o = SRun held (AAcq n :: p) (Some r) /\ op_of s' o = SRun (n :: held) p None) /\
+                lock_of s n = None /\
+                forall m, lock_of s' m = if Nat.eqb m n then Some (o, false) else lock_of s m
+  | ERel n o _ => (exists held p, op_of s o = SRun held (ARel n :: p) None /\ op_of s' o = SRun (remove1 n held) p None) /\
+                lock_of s n = Some (o, false) /\
+                forall m, lock_of s' m = if Nat.eqb m n then None else lock_of s m
+  | EDone o => (exists held, op_of s o = SRun held [] None) /\ op_of s' o = SDone /\
+                forall m, lock_of s' m = lock_of s m
+  | _ => False
+  end.
+Proof.
+  intros HC HS ST. destruct e as [o|o rs|n o r|n o r|n o was|o|o]; simpl in ST.
+  - destruct (op_of s o) eqn:Eo; try discriminate.
+    assert (R : o < length (ops s)) by (apply op_of_range; congruence).
+    pose proof (disciplined_kind cfg o HC) as D.
+    assert (s' = set_op s o (SRun [] (prog_of (kind_of cfg o)) None)) as ->.
+    { destruct (kind_of cfg o); simpl in D; try discriminate; inv ST; reflexivity. }
+    split; auto. split; [apply op_set_eq; auto|]. intros; apply lock_set_op.
+  - pose proof (disciplined_kind cfg o HC) as D. destruct (kind_of cfg o); simpl in D; discriminate.
+  - rewrite (own_orph _ HS) in ST. simpl in ST.
+    destruct (op_of s o) eqn:Eo; try discriminate; try (own_contra HS o Eo).
+    assert (R : o < length (ops s)) by (apply op_of_range; congruence).
+    destruct prog as [|[m|m|m] p]; try discriminate. destruct cur; try discriminate.
+    destruct (Nat.eqb_spec m n); try discriminate. subst m. inv ST.
+    split; [|intros; apply lock_set_op].
+    exists held, p. split; auto. apply op_set_eq; auto.
+  - destruct (lock_of s n) eqn:El; try discriminate.
+    destruct (Nat.ltb_spec n (length (locks s))) as [Rn|]; try discriminate.
+    rewrite (own_orph _ HS) in ST. simpl in ST.
+    destruct (op_of s o) eqn:Eo; try discriminate; try (own_contra HS o Eo).
+    assert (R : o < length (ops s)) by (apply op_of_range; congruence).
+    destruct prog as [|[m|m|m] p]; try discriminate. destruct cur as [r'|]; try discriminate.
+    destruct (Nat.eqb_spec m n); simpl in ST; try discriminate. subst m.
+    destruct (Nat.eqb_spec r r'); try discriminate. subst r'. inv ST.
+    split; [|split; auto].
+    + exists held, p. split; auto. rewrite op_set_lock. apply op_set_eq; auto.
+    + intros m. destruct (Nat.eqb_spec m n) as [->|Ne].
+      * apply lock_set_eq. auto.
+      * rewrite lock_set_neq by auto. apply lock_set_op.
+  - destruct (op_of s o) eqn:Eo; try discriminate; try (own_contra HS o Eo).
+    assert (R : o < length (ops s)) by (apply op_of_range; congruence).
+    destruct prog as [|[m|m|m] p]; try discriminate. destruct cur; try discriminate.
+    destruct (Nat.eqb_spec m n); try discriminate. subst m.
+    destruct (own_ops_run _ _ _ _ _ HS Eo) as (W & _ & HL).
+    simpl in W. apply andb_true_iff in W. destruct W as [Hm _]. apply mem_In in Hm. apply HL in Hm.
+    unfold rel_lock in ST. destruct (Bool.eqb was _); try discriminate. inv ST.
+    split; [|split; auto].
+    + exists held, p. split; auto. rewrite op_set_lock. apply op_set_eq; auto.
+    + intros m. destruct (Nat.eqb_spec m n) as [->|Ne].
+      * apply lock_set_none.
+      * rewrite lock_set_neq by auto. apply lock_set_op.
+  - pose proof (disciplined_kind cfg o HC) as D. destruct (kind_of cfg o); simpl in D; discriminate.
+  - destruct (op_of s o) eqn:Eo; try discriminate; try (own_contra HS o Eo).
+    assert (R : o < length (ops s)) by (apply op_of_range; congruence).
+    destruct prog; try discriminate. destruct cur; try discriminate. inv ST.
+    split; [eauto|]. split; [apply op_set_eq; auto|]. intros; apply lock_set_op.
+Qed.
+
+(* ---- legality ---- *)
+Definition lock_view (s : st) (h : lockst) : Prop := forall n, h n = option_map fst (lock_of s n).
+
+Lemma disciplined_legal_from cfg : forall tr s s' h,
+  all_disciplined cfg -> Own s -> lock_view s h -> run cfg s tr = Some s' -> legal h (sched tr).
+Proof.
+  induction tr as [|e t IH]; simpl; intros s s' h HC HS HV R; auto.
+  destruct (step cfg s e) as [s1|] eqn:ST; try discriminate.
+  assert (HS1 : Own s1) by (eapply own_step; eauto).
+  pose proof (step_spec cfg s e s1 HC HS ST) as SP.
+  destruct e as [o|o rs|n o r|n o r|n o was|o|o]; simpl; try contradiction.
+  - destruct SP as (_ & _ & SL). apply (IH s1 s'); auto. intros m. rewrite SL. apply HV.
+  - destruct SP as (_ & SL). apply (IH s1 s'); auto. intros m. rewrite SL. apply HV.
+  - destruct SP as (_ & El & SL). split.
+    + rewrite HV, El. reflexivity.
+    + apply (IH s1 s'); auto. intros m. rewrite SL. unfold setl. destruct (Nat.eqb m n); auto; apply HV.
+  - destruct SP as (_ & El & SL). split.
+    + rewrite HV, El. reflexivity.
+    + apply (IH s1 s'); auto. intros m. rewrite SL. unfold setl. destruct (Nat.eqb m n); auto; apply HV.
+  - destruct SP as (_ & _ & SL). apply (IH s1 s'); auto. intros m. rewrite SL. apply HV.
+Qed.
+
+Theorem disciplined_legal cfg nn tr s :
+  all_disciplined cfg -> run cfg (init nn cfg) tr = Some s -> legal free (sched tr).
+Proof.
+  intros HC R. apply (disciplined_legal_from cfg tr (init nn cfg) s free); auto.
+  - apply own_init.
+  - intros n. rewrite lock_of_init. reflexivity.
+Qed.
+
+(* ---- two-phase-ness: every lock program of model L is two-phase, and programs only shrink ---- *)
+Fixpoint no_acq (p : list act) : bool :=
+  match p with [] => true | AAcq _ :: _ => false | _ :: t => no_acq t end.
+
+Fixpoint tp_prog (p : list act) : bool :=
+  match p with [] => true | ARel _ :: t => no_acq t && tp_prog t | _ :: t => tp_prog t end.
+
+Lemma tp_prog_of k : tp_prog (prog_of k) = true.
+Proof. destruct k; reflexivity. Qed.
+
+Lemma tp_prog_tail a p : tp_prog (a :: p) = true -> tp_prog p = true.
+Proof. destruct a; simpl; auto. intros H. apply andb_true_iff in H. tauto. Qed.
+
+Definition TP (s : st) : Prop := forall o held prog cur, op_of s o = SRun held prog cur -> tp_prog prog = true.
+
+Lemma tp_step cfg s e s' : all_disciplined cfg -> Own s -> TP s -> step cfg s e = Some s' -> TP s'.
+Proof.
+  intros HC HS HT ST o held prog cur Eo.
+  destruct (step_frame cfg s e s' HC HS ST) as [FR _].
+  destruct (Nat.eq_dec o (ev_op e)) as [->|Ne]; [|rewrite FR in Eo by auto; eapply HT; eauto].
+  pose proof (step_spec cfg s e s' HC HS ST) as SP.
+  destruct e as [o|o rs|n o r|n o r|n o was|o|o]; simpl in *; try contradiction.
+  - destruct SP as (_ & E & _). rewrite E in Eo. inv Eo. apply tp_prog_of.
+  - destruct SP as ((h0 & p & E0 & E) & _). rewrite E in Eo. inv Eo. apply HT in E0. eapply tp_prog_tail; eauto.
+  - destruct SP as ((h0 & p & E0 & E) & _). rewrite E in Eo. inv Eo. apply HT in E0. eapply tp_prog_tail; eauto.
+  - destruct SP as ((h0 & p & E0 & E) & _). rewrite E in Eo. inv Eo. apply HT in E0. eapply tp_prog_tail; eauto.
+  - destruct SP as (_ & E & _). rewrite E in Eo. discriminate.
+Qed.
+
+Lemma tp_init nn cfg : TP (init nn cfg).
+Proof.
+  intros o held prog cur E. unfold op_of, init in E; simpl in E.
+  destruct (nth_map_idle cfg o) as [X|X]; rewrite X in E; discriminate.
+Qed.
+
+(* an operation whose remaining program has no grant (or that is done) never locks again *)
+Definition quiet (s : st) (o : opid) : Prop :=
+  match op_of s o with SRun _ p _ => no_acq p = true | SDone => True | _ => False end.
+
+Lemma quiet_run cfg o : forall tr s s',
+  all_disciplined cfg -> Own s -> quiet s o -> run cfg s tr = Some s' -> haslk o (sched tr) = false.
+Proof.
+  induction tr as [|e t IH]; simpl; intros s s' HC HS HQ R; auto.
+  destruct (step cfg s e) as [s1|] eqn:ST; try discriminate.
+  assert (HS1 : Own s1) by (eapply own_step; eauto).
+  destruct (step_frame cfg s e s1 HC HS ST) as [FR _].
+  pose proof (step_spec cfg s e s1 HC HS ST) as SP.
+  unfold quiet in HQ.
+  destruct (Nat.eq_dec o (ev_op e)) as [->|Ne].
+  - destruct e as [o|o rs|n o r|n o r|n o was|o|o]; simpl in *; try contradiction.
+    + destruct SP as (E & _). rewrite E in HQ. contradiction.
+    + destruct SP as ((h0 & p & E0 & E) & _). rewrite E0 in HQ. apply (IH s1 s'); auto. unfold quiet. rewrite E. auto.
+    + destruct SP as ((h0 & p & E0 & E) & _). rewrite E0 in HQ. discriminate.
+    + destruct SP as ((h0 & p & E0 & E) & _). rewrite E0 in HQ. apply (IH s1 s'); auto. unfold quiet. rewrite E. auto.
+    + destruct SP as (_ & E & _). apply (IH s1 s'); auto. unfold quiet. rewrite E. auto.
+  - assert (HQ1 : quiet s1 o) by (unfold quiet; rewrite FR; auto).
+    specialize (IH s1 s' HC HS1 HQ1 R).
+    destruct e as [o1|o1 rs|n o1 r|n o1 r|n o1 was|o1|o1]; simpl in *; auto.
+    destruct (Nat.eqb_spec o1 o); [congruence|auto].
+Qed.
+
+Lemma disciplined_two_phase_from cfg : forall tr s s',
+  all_disciplined cfg -> Own s -> TP s -> run cfg s tr = Some s' -> two_phase (sched tr).
+Proof.
+  induction tr as [|e t IH]; simpl; intros s s' HC HS HT R; auto.
+  destruct (step cfg s e) as [s1|] eqn:ST; try discriminate.
+  assert (HS1 : Own s1) by (eapply own_step; eauto).
+  assert (HT1 : TP s1) by (apply (tp_step cfg s e s1); auto).
+  specialize (IH s1 s' HC HS1 HT1 R).
+  pose proof (step_spec cfg s e s1 HC HS ST) as SP.
+  destruct e as [o|o rs|n o r|n o r|n o was|o|o]; simpl; auto.
+  split; auto.
+  destruct SP as ((h0 & p & E0 & E) & _). apply HT in E0. simpl in E0. apply andb_true_iff in E0.
+  apply (quiet_run cfg o t s1 s'); auto. unfold quiet. rewrite E. tauto.
+Qed.
+
+Theorem disciplined_two_phase cfg nn tr s :
+  all_disciplined cfg -> run cfg (init nn cfg) tr = Some s -> two_phase (sched tr).
+Proof.
+  intros HC R. apply (disciplined_two_phase_from cfg tr (init nn cfg) s); auto.
+  - apply own_init.
+  - apply tp_init.
+Qed.
+
+(* ================================================================================================================== *)
+(* 6. the bridge: ANY covered placement of accesses inside a recorded lock trace is serializable, in the order        *)
+(*    computed from the trace alone                                                                                   *)
+(* ================================================================================================================== *)
+Definition is_lock_event (e : event) : bool := match e with Ac _ _ => false | _ => true end.
+Definition locks_of (s : list event) : list event := filter is_lock_event s.
+
+Lemma legal_locks_of : forall s h, legal h (locks_of s) -> legal h s.
+Proof.
+  induction s as [|[o n|o n|o n] t IH]; simpl; intros h H; auto.
+  - destruct H; split; auto.
+  - destruct H; split; auto.
+Qed.
+
+Lemma haslk_locks_of o s : haslk o (locks_of s) = haslk o s.
+Proof. induction s as [|[o1 n|o1 n|o1 n] t IH]; simpl; auto. rewrite IH; auto. Qed.
+
+Lemma two_phase_locks_of s : two_phase (locks_of s) -> two_phase s.
+Proof.
+  induction s as [|[o n|o n|o n] t IH]; simpl; auto.
+  rewrite haslk_locks_of. tauto.
+Qed.
+
+Lemma lock_order_locks_of s : lock_order (locks_of s) = lock_order s.
+Proof.
+  induction s as [|[o n|o n|o n] t IH]; simpl; auto.
+  rewrite haslk_locks_of, IH. auto.
+Qed.
+
+Section Bridge.
+Variables D L : Type.
+Variable acc : opid -> nid -> L -> D -> L * D.
+
+Theorem disciplined_runs_serializable cfg nn tr s0 s st :
+  all_disciplined cfg -> run cfg (init nn cfg) tr = Some s0 ->
+  locks_of s = sched tr -> covered free s ->
+  lock_order s = lock_order (sched tr) /\
+  (forall n, sd (exec D L acc s st) n = sd (exec D L acc (serial s) st) n) /\
+  (forall o, sl (exec D L acc s st) o = sl (exec D L acc (serial s) st) o).
+Proof.
+  intros HC R E HCov. split.
+  - rewrite <- E. symmetry. apply lock_order_locks_of.
+  - apply two_phase_serializable; auto.
+    + apply legal_locks_of. rewrite E. eapply disciplined_legal; eauto.
+    + apply two_phase_locks_of. rewrite E. eapply disciplined_two_phase; eauto.
+Qed.
+End Bridge.
+
+(* non-vacuity of the bridge: crossing-free sends and a creation, as model L accepts them *)
+Definition ex_cfg : list okind := [KSend 0 1; KOne 1; KOne 0].
+Definition ex_trace : list ev :=
+  [EIssue 0; EIssue 1; EIssue 2; EReq 0 0 0; EAcq 0 0 0; EReq 1 1 1; EAcq 1 1 1; EReq 1 0 2; EReq 0 2 3;
+   ERel 1 1 true; EDone 1; EAcq 1 0 2; ERel 1 0 true; ERel 0 0 true; EAcq 0 2 3; EDone 0; ERel 0 2 true; EDone 2].
+
+Example ex_trace_ok :
+  all_disciplined ex_cfg /\ (exists s, run ex_cfg (init 2 ex_cfg) ex_trace = Some s) /\
+  sched ex_trace = [Lk 0 0; Lk 1 1; Ul 1 1; Lk 0 1; Ul 0 1; Ul 0 0; Lk 2 0; Ul 2 0] /\
+  lock_order (sched ex_trace) = [1; 0; 2].
+Proof. vm_compute. repeat split; eauto. Qed.
